@@ -493,7 +493,7 @@ int parsec_argv_delete(int *argc, char ***argv, int start, int num_to_delete)
     if (NULL != tmp) *argv = tmp;
 
     /* adjust the argc */
-    (*argc) -= num_to_delete;
+    (*argc) = i;
 
     return PARSEC_SUCCESS;
 }
